@@ -48,7 +48,7 @@ def steps_program(st, program, sink, with_index, tr, name='out.tdms', after_sess
     iname = name + '_index'
     call_no = 0
     for k, session in enumerate(program['sessions']):
-        mode = 'w' if k == 0 else 'a'
+        mode = program.get('first_mode', 'w') if k == 0 else 'a'
         if sink in ('simpath', 'realpath'):
             target = (simfs.SIM_ROOT + name) if sink == 'simpath' else os.path.join(st.realdir(), name)
             kw = {'index_file': bool(with_index)}
